@@ -57,7 +57,7 @@ NOALLOC = [
     ('k_na_unarmor_3', 'messages/mod.rs', ['C18'], 'bounded', 'no-allocator unarmor, 3 characters, all contents and fill counts, vs the same reference as the std build', 'quick', 600),
     ('k_na_unarmor_5', 'messages/mod.rs', ['C18'], 'bounded', 'no-allocator unarmor, 5 characters', 'quick', 600),
     ('k_na_unarmor_8', 'messages/mod.rs', ['C18'], 'bounded', 'no-allocator unarmor, 8 characters', 'thorough', 900),
-    ('k_na_text_21', 'messages/mod.rs', ['C18', 'C01'], 'bounded', 'no-allocator text capacity: 21 characters is an error (not a panic), 20 is accepted; one concrete input', 'quick', 600),
+    ('k_na_text_21', 'messages/mod.rs', ['C18', 'C01'], 'bounded', 'no-allocator text capacity: a 21-character text field is an error, not a panic; one concrete input', 'quick', 600),
 ]
 
 for _n, _unw in [(0, 'quick'), (1, 'quick'), (2, 'quick'), (3, 'quick'), (4, 'quick'), (5, 'quick'), (6, 'quick'), (7, 'quick'), (8, 'quick'), (9, 'quick'), (12, 'quick'), (16, 'quick')]:
